@@ -11,7 +11,7 @@ LEAN_MODULES = ['VotelibProofs.Props.C05']
 GEN_MODULES = []
 REQUIRED = ['cw_copeland', 'cw_minimax_wv', 'cw_minimax_margins', 'cw_schulze', 'cw_benham', 'cw_tideman',
             'cw_rankedpairs_partial', 'cw_kemeny_partial', 'kemeny_is_argmax', 'kemeny_refusal',
-            'copeland_in_smith', 'copeland_defining', 'minimax_worst_counterscore',
+            'copeland_in_smith', 'schulze_in_smith', 'kemeny_in_smith', 'copeland_defining', 'minimax_worst_counterscore',
             'no_candidate_dropped_copeland', 'no_candidate_dropped_minimax', 'no_candidate_dropped_schulze',
             'cw_rankedpairs_witness', 'cw_kemeny_witness', 'rankedpairs_dropped_witness', 'minimax_never_loser_witness',
             'benham_elimination_tie_witness', 'tideman_elimination_tie_witness', 'tideman_last_tie_witness']
@@ -20,7 +20,7 @@ UNPROVED = ['cw_rankedpairs (rankedPairs sc v 1 = ok [w]): FALSE as stated on th
             'cw_kemeny (kemenyYoung v 1 = ok [w]): FALSE as stated on the current code (cw_kemeny_witness: refusal when a lower '
             'place ties); proved instead: cw_kemeny_partial (elects exactly w or refuses with NotImplementedError)',
             'lockPairs_acyclic', 'widestPaths_correct (value = max over paths of min edge)',
-            'schulze_in_smith', 'rankedpairs_in_smith', 'kemeny_in_smith', 'benham_in_smith', 'tideman_in_smith',
+            'rankedpairs_in_smith', 'benham_in_smith', 'tideman_in_smith',
             'minimax_defining (worst defeat over ALL opponents, absent pair = 0:0): FALSE on sparse dictionaries '
             '(minimax_never_loser_witness); proved instead: minimax_worst_counterscore (maximum over the pairs present)',
             'rankedpairs no_candidate_dropped: FALSE (rankedpairs_dropped_witness)',
@@ -479,7 +479,7 @@ LEVEL_TEXT = ('All ten registered Condorcet evaluators, the three pairwise win s
               'Copeland (both variants), minimax by winning votes and by margins, Schulze, Benham and Tideman alternative elect exactly '
               'the Condorcet winner for one seat; ranked pairs (all three scorers) and Kemeny-Young never elect anybody else (they '
               'answer [w] or refuse); Kemeny-Young answers only with the head of the unique best order; every candidate Copeland names '
-              'for one seat lies in the Smith set; Copeland ranks by wins minus losses; Copeland, Schulze and minimax list every '
+              'or Schulze names for one seat, and the first place of every Kemeny-Young answer, lies in the Smith set; Copeland ranks by wins minus losses; Copeland, Schulze and minimax list every '
               'candidate when there are as many seats as candidates.  Where the current code does not meet the '
               'property (ranked pairs and Kemeny-Young refusals with a Condorcet winner, ranked pairs dropping candidates, minimax on '
               'sparse dictionaries, hybrids crashing on elimination ties) the negation is proved on a concrete witness and the defect '
